@@ -1,5 +1,6 @@
 """Contracts for multidecoder/decoders/shell.py  (C16, C01, C03)."""
 from pyvc.contract import Ghost, Loop, contract, spec
+from pyvc.rt import child_at, nchildren  # noqa: F401  (run-time meaning of the spec vocabulary)
 
 
 @spec
